@@ -114,6 +114,9 @@ struct TxRec {
     description: String,
     restore: bool,
     still_visible_gone: Vec<CommitId>,
+    /// hidden commits this transaction deliberately built on (`jj new <hidden id>`),
+    /// which makes them and their ancestors visible again
+    resurrects: Vec<CommitId>,
 }
 
 #[derive(Default)]
@@ -130,6 +133,9 @@ struct Model {
     /// operations / views as written (C16)
     written_ops: Vec<(OperationId, op_store::Operation)>,
     written_views: Vec<(ViewId, op_store::View)>,
+    /// values written straight through the OpStore interface (C16 raw fuzz)
+    raw_views: Vec<(ViewId, op_store::View)>,
+    raw_ops: Vec<(OperationId, op_store::Operation)>,
     max_heads_seen: usize,
     ioerr_cmds: BTreeSet<(usize, usize)>,
     restores_written: u64,
@@ -164,6 +170,9 @@ struct RunCfg {
     skew_ms: Vec<i64>,
     older_op_chance: usize, // 1/x, 0 = never
     changed_paths: bool,
+    locks_ineffective: bool,
+    /// `git.write-change-id-header = false`: the Git commit id then does not cover the change id
+    no_change_id_header: bool,
     /// transactions that replace the whole view by an older operation's
     /// (`jj op restore`); only in C46 runs, the C13 intent model cannot follow them
     restores: bool,
@@ -976,6 +985,67 @@ fn check_roundtrip(shared: &Shared, sim: &Sim, loader: &RepoLoader, repo: &dyn R
             }
         }
     }
+    // values written straight through the OpStore interface
+    let (raw_views, raw_ops) = {
+        let model = shared.model.lock().unwrap();
+        (model.raw_views.clone(), model.raw_ops.clone())
+    };
+    // A ref map entry with an absent target denotes the same thing as no entry
+    // (that is how `View` exposes the maps, and its setters never store one);
+    // the store is free to drop such entries, so both sides are compared with
+    // them removed. An entry that comes back as anything else is a difference.
+    let normalise = |v: &op_store::View| -> op_store::View {
+        let mut v = v.clone();
+        v.local_bookmarks.retain(|_, t| t.is_present());
+        v.local_tags.retain(|_, t| t.is_present());
+        v.git_refs.retain(|_, t| t.is_present());
+        v.git_heads.retain(|_, t| t.is_present());
+        v
+    };
+    for (id, want) in raw_views.iter().rev().take(4) {
+        let want = &normalise(want);
+        match op_store.read_view(id).block_on().map(|v| normalise(&v)) {
+            Ok(got) if got == *want => shared.model.lock().unwrap().probe("c16_raw_view_reread"),
+            Ok(got) => {
+                let field = if got.git_refs != want.git_refs {
+                    "git_refs"
+                } else if got.remote_views != want.remote_views {
+                    "remote_views"
+                } else if got.local_bookmarks != want.local_bookmarks {
+                    "local_bookmarks"
+                } else if got.local_tags != want.local_tags {
+                    "local_tags"
+                } else if got.git_heads != want.git_heads {
+                    "git_heads"
+                } else if got.wc_commit_ids != want.wc_commit_ids {
+                    "wc_commit_ids"
+                } else {
+                    "head_ids"
+                };
+                shared.model.lock().unwrap().violate(
+                    "C16",
+                    "raw_view_roundtrip",
+                    format!("reposim:c16:raw_view_roundtrip:{field}"),
+                    format!("{ctx}: view {} written through the OpStore reads back with a different {field}", short(id)),
+                    at,
+                );
+            }
+            Err(e) => {
+                shared.model.lock().unwrap().violate("C16", "raw_view_unreadable", "reposim:c16:raw_view_unreadable".into(), format!("{ctx}: view {} written through the OpStore cannot be read: {e}", short(id)), at);
+            }
+        }
+    }
+    for (id, want) in raw_ops.iter().rev().take(4) {
+        match op_store.read_operation(id).block_on() {
+            Ok(got) if got == *want => shared.model.lock().unwrap().probe("c16_raw_operation_reread"),
+            Ok(_) => {
+                shared.model.lock().unwrap().violate("C16", "raw_operation_roundtrip", "reposim:c16:raw_operation_roundtrip".into(), format!("{ctx}: operation {} written through the OpStore reads back as a different value", short(id)), at);
+            }
+            Err(e) => {
+                shared.model.lock().unwrap().violate("C16", "raw_operation_unreadable", "reposim:c16:raw_operation_unreadable".into(), format!("{ctx}: operation {} written through the OpStore cannot be read: {e}", short(id)), at);
+            }
+        }
+    }
 }
 
 fn diff_commit(a: &backend::Commit, b: &backend::Commit) -> &'static str {
@@ -1306,7 +1376,7 @@ impl RepoSim {
         let year = [2001, 2001, 1965, 2040][d.n(4)];
         let tz = ["+00:00", "+07:00", "-05:30", "+13:45"][d.n(4)];
         let seed = 1000 + (slot as u64) * 1000 + (cmd as u64) * 10 + pid as u64 * 100_000;
-        let extra = if shared.cfg.changed_paths { "" } else { "" };
+        let extra = if shared.cfg.no_change_id_header { "git.write-change-id-header = false" } else { "" };
         let settings = make_settings(seed, op_ms, commit_ms, year, tz, extra);
         let result = Self::command(shared, sim, &d, &settings, pid, cmd);
         let ioerr_here = sim.inner.lock().unwrap().ioerrs > ioerrs_before;
@@ -1382,6 +1452,9 @@ impl RepoSim {
         sim.note("note:loaded", format!("op {} heads {}", short(repo.op_id()), repo.view().heads().len()));
         Self::monitors(shared, sim, d, &loader, repo.as_ref(), "loaded");
         if kind == 1 {
+            if !shared.cfg.heads_focus && d.chance(1, 3) {
+                Self::raw_op_store_writes(shared, sim, d, &loader, repo.as_ref());
+            }
             return Ok(());
         }
         if kind == 2 {
@@ -1657,6 +1730,47 @@ impl RepoSim {
                     rec.rewrite_pairs.push((src.id().clone(), new.id().clone()));
                     shared.model.lock().unwrap().probe("squash_mutation");
                 }
+                1 if !non_root.is_empty() && shared.cfg.git && !shared.cfg.locks_ineffective && d.chance(1, 3) => {
+                    // "generic rewrite": the first non-root commit is rewritten into
+                    // content that is identical for every process (fixed description
+                    // and signatures), with one or two predecessors. Two processes
+                    // doing this concurrently produce the same Git object for
+                    // different jj metadata; the backend must notice under its
+                    // table lock and re-date one of them.
+                    let c = non_root[0].clone();
+                    let sig = Signature {
+                        name: "Generic".to_string(),
+                        email: "generic@example.com".to_string(),
+                        timestamp: Timestamp {
+                            timestamp: MillisSinceEpoch(1_000_000_000_000),
+                            tz_offset: 0,
+                        },
+                    };
+                    let mut preds = vec![c.id().clone()];
+                    if non_root.len() >= 2 && d.chance(1, 2) {
+                        preds.push(non_root[1 + d.n(non_root.len() - 1)].id().clone());
+                    }
+                    let new = tx
+                        .repo_mut()
+                        .rewrite_commit(&c)
+                        .set_description("generic rewrite")
+                        .set_author(sig.clone())
+                        .set_committer(sig)
+                        .set_predecessors(preds.clone())
+                        .write()
+                        .block_on()
+                        .map_err(|e| CmdError::Commit(err_chain(&e)))?;
+                    sim.note("note:mut", format!("generic rewrite {} -> {} ({} predecessors)", short(c.id()), short(new.id()), preds.len()));
+                    {
+                        let mut model = shared.model.lock().unwrap();
+                        model.probe("generic_same_content_rewrite");
+                        model.written_commits.push((new.id().clone(), new.store_commit().as_ref().clone()));
+                    }
+                    rec.rewritten.push((c.id().clone(), new.id().clone(), c.change_id().clone()));
+                    for p in &preds {
+                        rec.rewrite_pairs.push((p.clone(), new.id().clone()));
+                    }
+                }
                 1 if !non_root.is_empty() => {
                     let c = non_root[d.n(non_root.len())].clone();
                     let amended = if d.chance(1, 3) {
@@ -1764,6 +1878,36 @@ impl RepoSim {
                             parents.push(c);
                         }
                     }
+                    // ... or, sometimes, on a commit that is hidden in the loaded
+                    // repository (abandoned or rewritten earlier) but known to its
+                    // index: what `jj new <id of a hidden commit>` does
+                    if !shared.cfg.heads_focus && d.chance(1, 6) {
+                        let vis_ids: HashSet<CommitId> = visible_commits(repo.as_ref()).iter().map(|c| c.id().clone()).collect();
+                        let written: Vec<CommitId> = shared.model.lock().unwrap().written_commits.iter().map(|(id, _)| id.clone()).collect();
+                        let hidden: Vec<Commit> = sched::without_hooks(|| {
+                            written
+                                .iter()
+                                .filter(|id| !vis_ids.contains(*id) && !gone_here.contains(*id))
+                                .filter(|id| repo.index().has_id(id).block_on().unwrap_or(false))
+                                .filter_map(|id| repo.store().get_commit(id).ok())
+                                .collect()
+                        });
+                        // prefer a hidden commit sitting directly on a current head (an
+                        // abandoned leaf): building on it turns that head into an ancestor
+                        let on_head: Vec<Commit> = hidden
+                            .iter()
+                            .filter(|h| h.parent_ids().iter().any(|p| repo.view().heads().contains(p)))
+                            .cloned()
+                            .collect();
+                        let hidden = if !on_head.is_empty() && d.chance(2, 3) { on_head } else { hidden };
+                        if !hidden.is_empty() {
+                            let h = hidden[d.n(hidden.len())].clone();
+                            sim.note("note:mut", format!("building on hidden commit {}", short(h.id())));
+                            shared.model.lock().unwrap().probe("new_commit_on_hidden_parent");
+                            rec.resurrects.push(h.id().clone());
+                            parents = vec![h];
+                        }
+                    }
                     if parents.len() > 1 {
                         parents.retain(|p| *p.id() != root_id);
                     }
@@ -1780,6 +1924,40 @@ impl RepoSim {
                     } else {
                         edit_tree(tx.repo_mut(), &base_tree, d, &format!("{uniq}.{m}")).map_err(CmdError::Commit)?
                     };
+                    // With the Git backend the commit id does not cover the change id:
+                    // two processes that create commits identical in every Git-visible
+                    // field (same parents, tree, message, author and committer to the
+                    // second) get the same commit id for different change ids unless
+                    // the backend, under its table lock, notices and re-dates one of
+                    // them. Only generated while the lock works.
+                    let generic = shared.cfg.git && !shared.cfg.locks_ineffective && rec.resurrects.is_empty() && d.chance(1, 4);
+                    if generic {
+                        let sig = Signature {
+                            name: "Generic".to_string(),
+                            email: "generic@example.com".to_string(),
+                            timestamp: Timestamp {
+                                timestamp: MillisSinceEpoch(1_000_000_000_000),
+                                tz_offset: 0,
+                            },
+                        };
+                        let parent = vis.iter().find(|c| *c.id() == root_id).cloned().unwrap_or_else(|| vis[0].clone());
+                        let new = tx
+                            .repo_mut()
+                            .new_commit(vec![parent.id().clone()], parent.tree())
+                            .set_description("generic commit")
+                            .set_author(sig.clone())
+                            .set_committer(sig)
+                            .write()
+                            .block_on()
+                            .map_err(|e| CmdError::Commit(err_chain(&e)))?;
+                        sim.note("note:mut", format!("generic commit {} (change {})", short(new.id()), short(new.change_id())));
+                        let mut model = shared.model.lock().unwrap();
+                        model.probe("generic_same_content_commit");
+                        model.written_commits.push((new.id().clone(), new.store_commit().as_ref().clone()));
+                        drop(model);
+                        rec.created.push((new.id().clone(), new.change_id().clone()));
+                        continue;
+                    }
                     let mut b = tx
                         .repo_mut()
                         .new_commit(parents.iter().map(|p| p.id().clone()).collect(), tree)
@@ -1893,6 +2071,108 @@ impl RepoSim {
         sim.note("note:tx_published", short(op.id()));
         Self::monitors(shared, sim, d, &loader, new_repo.as_ref(), "committed");
         Ok(())
+    }
+
+    /// C16: arbitrary `op_store::View` / `op_store::Operation` values written
+    /// straight through the `OpStore` interface (as another client of the
+    /// store may): every map may hold conflicted and absent targets, remote
+    /// refs in both states, several workspaces; operations carry random
+    /// metadata, attributes and predecessor maps. Other processes read them
+    /// back by id.
+    fn raw_op_store_writes(shared: &Arc<Shared>, sim: &Arc<Sim>, d: &Draw<'_>, loader: &RepoLoader, repo: &ReadonlyRepo) {
+        use jj_lib::op_store::RemoteRef;
+        use jj_lib::op_store::RemoteRefState;
+        use jj_lib::op_store::RemoteView;
+        let ids: Vec<CommitId> = visible_commits(repo).iter().map(|c| c.id().clone()).collect();
+        if ids.is_empty() {
+            return;
+        }
+        let pick = |d: &Draw<'_>| ids[d.n(ids.len())].clone();
+        let target = |d: &Draw<'_>| -> RefTarget {
+            match d.weighted(&[4, 2, 2, 1]) {
+                1 => RefTarget::absent(),
+                2 => RefTarget::from_legacy_form([pick(d)], [pick(d), pick(d)]),
+                3 => RefTarget::from_merge(jj_lib::merge::Merge::from_vec(vec![None, Some(pick(d)), Some(pick(d)), None, Some(pick(d))])),
+                _ => RefTarget::normal(pick(d)),
+            }
+        };
+        let remote_ref = |d: &Draw<'_>| RemoteRef {
+            target: target(d),
+            state: if d.chance(1, 2) { RemoteRefState::Tracked } else { RemoteRefState::New },
+        };
+        let mut view = op_store::View::make_root(pick(d));
+        for _ in 0..d.n(3) {
+            view.head_ids.insert(pick(d));
+        }
+        for i in 0..d.n(3) {
+            view.local_bookmarks.insert(format!("rb{i}").as_str().into(), target(d));
+        }
+        for i in 0..d.n(3) {
+            view.local_tags.insert(format!("rt{i} \u{fc}").as_str().into(), target(d));
+        }
+        for r in 0..d.n(3) {
+            let mut rv = RemoteView::default();
+            for i in 0..1 + d.n(2) {
+                rv.bookmarks.insert(format!("rb{i}").as_str().into(), remote_ref(d));
+            }
+            for i in 0..d.n(2) {
+                rv.tags.insert(format!("rt{i}").as_str().into(), remote_ref(d));
+            }
+            view.remote_views.insert(["origin", "up stream", "git"][r].into(), rv);
+        }
+        for i in 0..d.n(3) {
+            view.git_refs.insert(format!("refs/heads/raw{i}").as_str().into(), target(d));
+        }
+        for i in 0..d.n(3) {
+            view.git_heads.insert(format!("ws{i}").as_str().into(), target(d));
+        }
+        for i in 0..d.n(3) {
+            view.wc_commit_ids.insert(format!("ws{i}").as_str().into(), pick(d));
+        }
+        let op_store = loader.op_store();
+        let Ok(view_id) = op_store.write_view(&view).block_on() else {
+            return;
+        };
+        shared.model.lock().unwrap().raw_views.push((view_id.clone(), view));
+        let ts = |d: &Draw<'_>| Timestamp {
+            timestamp: MillisSinceEpoch([0i64, -1, 1_700_000_000_123, 253_402_300_799_999][d.n(4)]),
+            tz_offset: [0, -720, 840, 1][d.n(4)],
+        };
+        let mut attributes = BTreeMap::new();
+        for i in 0..d.n(3) {
+            attributes.insert(format!("key{i}"), ["", "value", "multi\nline \u{1f600}"][d.n(3)].to_string());
+        }
+        let predecessors = match d.n(3) {
+            0 => None,
+            1 => Some(BTreeMap::new()),
+            _ => {
+                let mut m = BTreeMap::new();
+                for _ in 0..1 + d.n(3) {
+                    let preds: Vec<CommitId> = (0..d.n(3)).map(|_| pick(d)).collect();
+                    m.insert(pick(d), preds);
+                }
+                Some(m)
+            }
+        };
+        let op = op_store::Operation {
+            view_id,
+            parents: (0..1 + d.n(2)).map(|_| repo.op_id().clone()).collect::<BTreeSet<_>>().into_iter().collect(),
+            metadata: op_store::OperationMetadata {
+                time: op_store::TimestampRange { start: ts(d), end: ts(d) },
+                description: ["", "raw op", "line1\nline2"][d.n(3)].to_string(),
+                hostname: ["", "host.example.com"][d.n(2)].to_string(),
+                username: ["", "us\u{e9}r"][d.n(2)].to_string(),
+                is_snapshot: d.chance(1, 2),
+                workspace_name: if d.chance(1, 2) { Some("ws0".into()) } else { None },
+                attributes,
+            },
+            commit_predecessors: predecessors,
+        };
+        if let Ok(op_id) = op_store.write_operation(&op).block_on() {
+            shared.model.lock().unwrap().raw_ops.push((op_id, op));
+            shared.model.lock().unwrap().probe("c16_raw_values_written");
+            sim.note("note:raw", "wrote a generated view and operation straight through the OpStore".to_string());
+        }
     }
 
     fn monitors(shared: &Arc<Shared>, sim: &Arc<Sim>, d: &Draw<'_>, loader: &RepoLoader, repo: &dyn Repo, ctx: &str) {
@@ -2020,7 +2300,7 @@ impl RepoSim {
             }
             for (change, n) in &count {
                 let before = base_count.get(*change).copied().unwrap_or(0);
-                if *n > 1 && *n > before && !rec.divergent.contains(*change) {
+                if *n > 1 && *n > before && !rec.divergent.contains(*change) && rec.resurrects.is_empty() {
                     // a divergent rewrite of an ancestor legitimately duplicates
                     // the change ids of its rebased descendants
                     if rec.divergent.is_empty() {
@@ -2110,6 +2390,7 @@ impl Engine for RepoSim {
         let ioerr = *chooser.pick(&[0usize, 0, 0, 10]);
         let locks_ineffective = chooser.chance(1, 3);
         let git = matches!(prop, "C17") && chooser.chance(1, 2);
+        let no_change_id_header = git && chooser.chance(1, 2);
         let skewed = chooser.chance(1, 3);
         let skew_ms: Vec<i64> = (0..n_procs)
             .map(|_| if skewed { [0i64, -7_200_000, 5_000, 86_000_000][chooser.choose(4)] } else { 0 })
@@ -2220,6 +2501,8 @@ impl Engine for RepoSim {
                 skew_ms: skew_ms.clone(),
                 older_op_chance,
                 changed_paths: changed_paths && !heads_focus,
+                locks_ineffective,
+                no_change_id_header,
                 restores,
             },
             root_op_hex,
@@ -2471,8 +2754,10 @@ impl RepoSim {
     /// and different values never share an id.
     fn check_c16_population(&self, shared: &Arc<Shared>) {
         let mut model = shared.model.lock().unwrap();
-        let views = model.written_views.clone();
-        let ops = model.written_ops.clone();
+        let mut views = model.written_views.clone();
+        views.extend(model.raw_views.iter().cloned());
+        let mut ops = model.written_ops.clone();
+        ops.extend(model.raw_ops.iter().cloned());
         for (i, (id_a, a)) in views.iter().enumerate() {
             for (id_b, b) in views.iter().skip(i + 1) {
                 if (id_a == id_b) != (a == b) {
@@ -2782,6 +3067,8 @@ impl RepoSim {
         }
         // (2) rewritten / abandoned commits are hidden
         let mut exempt_roots: Vec<CommitId> = published.iter().flat_map(|t| t.divergent_old.iter().cloned()).collect();
+        // commits a transaction deliberately built on although they were hidden
+        exempt_roots.extend(published.iter().flat_map(|t| t.resurrects.iter().cloned()));
         for (old, (_, ch)) in &gone_commits {
             if touch_count.get(ch).is_some_and(|s| s.len() > 1) {
                 exempt_roots.push(old.clone());
